@@ -117,7 +117,7 @@ func (a Array) Values() []Value {
 func (a Array) Hash(seed uintptr) uintptr {
 	h := seed
 	for e := a.Enumerator(); e.MoveNext(); {
-		h ^= e.Current().Hash(seed)
+		h ^= hashMember(e.Current(), seed)
 	}
 	return h
 }
